@@ -168,8 +168,13 @@ func genC02(w *simrt.Choices, tier string, avoid map[string]bool) Case {
 	if len(k.data()) > 8192 && k.Net.SegMode == 2 {
 		k.Net.SegMode = 1
 	}
+	if len(k.data()) > 256<<10 && k.Net.BufCap > 0 && k.Net.BufCap < 65536 {
+		// megabytes through 64-byte connection buffers are tens of thousands of
+		// segments per transfer (SMTP, then POP3): the run would not fit its step budget
+		k.Net.BufCap = 65536
+	}
 	k.Busy = w.Choose(3) == 0
-	k.OtherN = []int{30, 500, 3000, 9000}[w.Choose(4)]
+	k.OtherN = []int{30, 500, 3000, 9000, 70000}[w.Choose(5)]
 	if k.Store.Backend == "file" && !k.Busy {
 		k.Fault = genFSFault(w, 1)
 	}
@@ -243,8 +248,27 @@ func runC02(c *Ctx, cs Case) {
 		cl.cmd("QUIT")
 		okSent = true
 	})
+	get := func(path string) (int, []byte, bool) {
+		req := httptest.NewRequest("GET", path, nil)
+		rec := httptest.NewRecorder()
+		panicked := false
+		func() {
+			defer func() {
+				if r := recover(); r != nil {
+					panicked = true
+				}
+			}()
+			web.Router.ServeHTTP(rec, req)
+		}()
+		if cl := rec.Header().Get("Content-Length"); cl != "" && !panicked {
+			if n, err := strconv.Atoi(cl); err != nil || n != rec.Body.Len() {
+				c.Failf("http/content-length-differs-from-body", "GET %s: the response announces Content-Length %s but its body has %d bytes", path, cl, rec.Body.Len())
+			}
+		}
+		return rec.Code, rec.Body.Bytes(), panicked
+	}
 	// the second session (Busy): four different messages, one after the other
-	var others [][]byte
+	var others, otherStored [][]byte
 	otherOK := false
 	var t2 *simrt.Task
 	if k.Busy {
@@ -253,8 +277,45 @@ func runC02(c *Ctx, cs Case) {
 			for i := 0; len(d) < k.OtherN; i++ {
 				d = append(d, fmt.Sprintf("%d/%04d ZYXWVUTSRQPONMLKJIHGFEDCBA zyxwvutsrqponmlkjihgfedcba 9876543210\r\n", n, i)...)
 			}
+			if k.OtherN >= 70000 && n == 1 {
+				// after a large message of ordinary lines: one whose single line is longer than all of that
+				d = []byte(fmt.Sprintf("Subject: the other message %d\r\nFrom: other@origin.test\r\n\r\n", n))
+				d = append(d, bytes.Repeat([]byte("L"), 150000)...)
+				d = append(d, "\r\n"...)
+			}
+			if k.OtherN >= 70000 && n >= 2 {
+				d = d[:bytes.Index(d, []byte("\r\n\r\n"))+4]
+				d = append(d, "short\r\n"...)
+			}
 			others = append(others, d)
 		}
+		c.Go("latest-poller", func() {
+			// another reader keeps asking for the newest message of the mailbox the second
+			// session is delivering to: every answer is "nothing yet" or one whole message
+			for i := 0; i < 300 && !otherOK && !c.Failed(); i++ {
+				code, body, pan := get("/api/v1/mailbox/bystander/latest/source")
+				switch {
+				case pan:
+					c.Failf("rest-source-failed", "GET bystander/latest/source panicked")
+				case code == 200:
+					ok := false
+					for _, d := range others {
+						ok = ok || bytes.HasSuffix(normCRLF(body), normCRLF(d))
+					}
+					if !ok {
+						c.Failf("rest-latest-source-is-no-message", "GET bystander/latest/source while mail was arriving returned %d bytes that are none of the messages delivered there: %q", len(body), short(body))
+					}
+				case code != 404:
+					c.Failf("rest-source-failed", "GET bystander/latest/source: status %d", code)
+				}
+				if i%25 == 24 {
+					// let simulated time pass (it only does when nobody is runnable)
+					simrt.Sleep(time.Millisecond)
+				} else {
+					simrt.Current().Yield("poller between requests")
+				}
+			}
+		})
 		t2 = c.Go("smtp-client2", func() {
 			cl, err := dialSMTP(c, "smtp2", 900*time.Second)
 			if err != nil {
@@ -315,6 +376,50 @@ func runC02(c *Ctx, cs Case) {
 					n, short(src), short(others[n]))
 				return
 			}
+			otherStored = append(otherStored, normCRLF(src))
+		}
+		// one POP3 session retrieves all of them, in order
+		bt := c.Go("pop3-bystander", func() {
+			pc, err := dialPOP3(c, "pop3b", 900*time.Second)
+			if err != nil {
+				c.Failf("dial-refused", "%v", err)
+				return
+			}
+			defer pc.conn.Close()
+			pc.readGreeting()
+			_ = pc.send("USER bystander", "\r\n")
+			pc.readReply(false)
+			_ = pc.send("PASS x", "\r\n")
+			if r := pc.readReply(false); !r.OK {
+				c.Failf("pop3-login-failed", "%s", r)
+				return
+			}
+			for n := range otherStored {
+				_ = pc.send(fmt.Sprintf("RETR %d", n+1), "\r\n")
+				r := pc.readReply(true)
+				if !r.OK || r.Err != nil {
+					c.Failf("pop3-retr-failed", "RETR %d of a session retrieving several messages: %s", n+1, r)
+					return
+				}
+				var got bytes.Buffer
+				for _, ln := range r.Body {
+					if strings.HasPrefix(ln, ".") {
+						ln = ln[1:]
+					}
+					got.WriteString(ln)
+					got.WriteString("\n")
+				}
+				if !bytes.Equal(got.Bytes(), otherStored[n]) {
+					c.Failf("pop3-retr-differs", "RETR %d of a session retrieving several messages differs from the stored source: %s", n+1, diffBytes(got.Bytes(), otherStored[n]))
+					return
+				}
+			}
+			_ = pc.send("QUIT", "\r\n")
+			pc.readReply(false)
+		})
+		c.Main.Join(bt)
+		if c.Failed() {
+			return
 		}
 	}
 	ms, err := st.GetMessages(box)
@@ -388,20 +493,6 @@ func runC02(c *Ctx, cs Case) {
 	}
 
 	// ---- REST and web UI ----
-	get := func(path string) (int, []byte, bool) {
-		req := httptest.NewRequest("GET", path, nil)
-		rec := httptest.NewRecorder()
-		panicked := false
-		func() {
-			defer func() {
-				if r := recover(); r != nil {
-					panicked = true
-				}
-			}()
-			web.Router.ServeHTTP(rec, req)
-		}()
-		return rec.Code, rec.Body.Bytes(), panicked
-	}
 	httpSources := func(rounds int) {
 		for i := 0; i < rounds; i++ {
 			for _, iface := range []struct{ name, path string }{
@@ -561,7 +652,7 @@ func init() {
 		},
 		BudgetIsViolation: true,
 		QuickRuns:         3000,
-		ThoroughRuns:      60000,
+		ThoroughRuns:      40000,
 		Rule: "one message per run travels SMTP DATA -> StoreManager -> real mem/file store and is read back through the store, the REST source " +
 			"endpoint, the web-UI source endpoint (real router and handlers, recording writer) and POP3 RETR (real POP3 server on the simulated " +
 			"network). The body is assembled from 0-13 adversarial pieces: text lines, lines starting with 1-3 dots, a lone dot line, empty " +
